@@ -155,6 +155,13 @@ func (l *lexer) run() {
 	for action := l.lexPipeline; action != nil; {
 		action = action()
 	}
+	// the input ended on the line that announces a here-document
+	l.mu.Lock()
+	eof := l.eof && l.err == nil
+	l.mu.Unlock()
+	if eof && l.heredoc.exists() {
+		l.error(l.last.Load().(ast.Pos), "syntax error: here-document delimited by EOF")
+	}
 }
 
 func (l *lexer) lexPipeline() action {
